@@ -146,6 +146,13 @@ def _rev3(case):
                 if A and B:
                     c.eq("(S*k).exp=S.exp(k)", A[0], B[0], tol, qs)
                     c.eq("S.exp(k)/ref", B[0], refs.rt(refs.rodrigues(ah, k), q - refs.rodrigues(ah, k) @ q), tol, qs)
+    ok, Sk = c.lib("k*S", lambda: k * S)
+    if ok and c.true("k*S/type", type(Sk) is L.Twist3 and len(Sk) == 1, "k*S gave %s" % type(Sk).__name__):
+        ok2, Xk = c.lib("(k*S).exp", Sk.exp)
+        if ok2:
+            A = _pose(c, "(k*S).exp", Xk, L.SE3)
+            if A:
+                c.eq("(k*S).exp=S.exp(k)", A[0], refs.rt(refs.rodrigues(ah, k), q - refs.rodrigues(ah, k) @ q), tol, qs)
     # units and vector theta
     ok, Xd = c.lib("exp/deg", S.exp, th * 180.0 / math.pi, "deg")
     if ok and T is not None:
@@ -286,6 +293,13 @@ def _rev2(case):
             A = _pose(c, "(S*k).exp", Xk, L.SE2)
             if A:
                 c.eq("(S*k).exp=S.exp(k)", A[0], ref(k), tol, qs)
+    ok, Sk = c.lib("k*S", lambda: k * S)
+    if ok and c.true("k*S/type", type(Sk) is L.Twist2 and len(Sk) == 1, "k*S gave %s" % type(Sk).__name__):
+        ok2, Xk = c.lib("(k*S).exp", Sk.exp)
+        if ok2:
+            A = _pose(c, "(k*S).exp", Xk, L.SE2)
+            if A:
+                c.eq("(k*S).exp=S.exp(k)", A[0], ref(k), tol, qs)
     ok, Xd = c.lib("exp/deg", S.exp, th * 180.0 / math.pi, "deg")
     if ok and T is not None:
         A = _pose(c, "exp/deg", Xd, L.SE2)
